@@ -99,7 +99,9 @@ int main(int argc, char** argv)
     budget["step-action"] = thorough ? 60 : 30;
     budget["atomic-rmw"] = thorough ? 16 : 8;
 
-    std::vector<Variant> variants = {{"rec", false}, {"calo", true}};
+    std::vector<Variant> variants = {{"rec", false, TrackOrder::none},
+                                     {"calo", true, TrackOrder::init_charge},
+                                     {"recsort", false, TrackOrder::reindex_particle_type}};
     std::vector<Case> cases;
     for (unsigned T : {2u, 3u})
     {
@@ -128,7 +130,7 @@ int main(int argc, char** argv)
     unsigned const slots = 2;
     // serial warm-up: initialise every function-local static before scheduling threads
     {
-        Variant v{"rec", false};
+        Variant v{"rec", false, TrackOrder::none};
         auto Ps = make_problem(v, 1, slots);
         auto st = Ps->make_stepper(0);
         bool ok;
